@@ -421,3 +421,55 @@ Proof.
     { apply (keys_nodup_unique d Hn); [exact I1 | exact I2 |]. cbn [fst]. apply key_eqb_refl_h. exact H1. }
     inversion E; subst. reflexivity.
 Qed.
+
+(* ------------------------------------------------------------------------------------------ *)
+(* corollaries used in the property file                                                        *)
+(* ------------------------------------------------------------------------------------------ *)
+
+(* anything that does not start with 'd' is dropped, with the handler effect of a drop *)
+Theorem non_dictionary_dropped
+  (Routing Store Other Addr : Type)
+  (process : node_state Routing Store Other Addr -> Addr -> rawmsg -> node_state Routing Store Other Addr)
+  fuel st sender data :
+  (forall rest, data <> c_d :: rest) ->
+  let st' := datagram_received Routing Store Other Addr process fuel st sender data in
+  routing _ _ _ _ st' = routing _ _ _ _ st /\ store _ _ _ _ st' = store _ _ _ _ st
+  /\ other _ _ _ _ st' = other _ _ _ _ st /\ failures _ _ _ _ st' = sender :: failures _ _ _ _ st.
+Proof.
+  intro H. destruct (decode_datagram fuel data) as [m|e] eqn:E.
+  - exfalso. destruct (accepted_first_byte fuel data m E) as [rest Hr]. exact (H rest Hr).
+  - exact (garbage_dropped Routing Store Other Addr process fuel st sender data e E).
+Qed.
+
+(* ASCII text is valid UTF-8 (so the error round trip covers every ASCII text) *)
+Lemma ascii_utf8 s : Forall (fun b => N_of_byte b <= 127) s -> utf8_valid s = true.
+Proof.
+  induction 1 as [|b r Hb Hr IH]; [reflexivity|].
+  cbn [utf8_valid]. replace (N_of_byte b <=? 127) with true by (symmetry; apply N.leb_le; exact Hb). exact IH.
+Qed.
+
+(* the validation that fix 774587f replaced: only len() of the two ids was checked *)
+Definition py_len_old (v : bval) : res N :=
+  match v with
+  | BInt _ => Err EType
+  | BStr s => Ok (blen s)
+  | BList l => Ok (N.of_nat (length l))
+  | BDict d => Ok (N.of_nat (length d))
+  end.
+Definition check_ids_old (rpc node : bval) : option err :=
+  match py_len_old rpc with
+  | Err e => Some e
+  | Ok n => if negb (n =? RPC_ID_LENGTH) then Some EValue
+            else match py_len_old node with
+                 | Err e => Some e
+                 | Ok m => if negb (m =? HASH_LENGTH) then Some EValue else None
+                 end
+  end.
+
+(* the old check let an rpc_id that is a LIST of 20 integers through (it then raised TypeError out of the
+   handler); the repaired check rejects it *)
+Lemma old_id_check_refuted :
+  let rpc := BList (repeat (BInt 0) 20) in
+  let node := BStr (repeat (byte_of_N 110) 48) in
+  check_ids_old rpc node = None /\ check_ids rpc node = Err EValue.
+Proof. vm_compute. split; reflexivity. Qed.
